@@ -103,11 +103,18 @@ def get_field_reader(
 
     match field_class:
         case PrimitiveField():
-            inner_type_reader = get_reader(
-                kafka_type=get_schema_field_type(field),
-                flexible=flexible,
-                optional=is_optional(field) and not is_tagged_field,
-            )
+            kafka_type = get_schema_field_type(field)
+            optional = is_optional(field)
+            if is_tagged_field and optional:
+                # Tagged fields signal absence by omission, but a peer may still send
+                # an explicit null for a nullable type. Fall back on the non-nullable
+                # reader for types that have no null representation.
+                try:
+                    inner_type_reader = get_reader(kafka_type, flexible, True)
+                except NotImplementedError:
+                    inner_type_reader = get_reader(kafka_type, flexible, False)
+            else:
+                inner_type_reader = get_reader(kafka_type, flexible, optional)
         case PrimitiveTupleField():
             inner_type_reader = get_reader(
                 kafka_type=get_schema_field_type(field),
